@@ -481,3 +481,56 @@ func (p *Prog) computeLockMaps() {
 	}
 	p.computeLockReqs()
 }
+
+// monotoneCheck: a store to a field declared `monotone` must not decrease it (objects allocated by the
+// storing function itself are exempt: initialisation).
+func (vc *VC) monotoneCheck(fr *Frame, n *Node, lv *LVal, val string, pos token.Pos) {
+	if lv.kind != lvHeap || len(lv.path) != 1 || vc.p.monotone == nil {
+		return
+	}
+	g, ok := vc.p.monotone[typeName(lv.root)+"."+lv.path[0]]
+	if !ok {
+		return
+	}
+	if lv.fresh || fr.allocFresh[lv.ref] {
+		return
+	}
+	root := vc.rootFrame(fr)
+	vc.allocVar()
+	freshObj := sNot(app("select", verName("alloc", root.entryEnv["alloc"]), lv.ref))
+	vc.counters["mono/"+relKey(fr.fn)]++
+	ob := vc.newObl(fmt.Sprintf("%s/monotone/%s.%s#%d", relKey(fr.fn), typeName(lv.root), g.Field, vc.counters["mono/"+relKey(fr.fn)]), "monotone", g.Tags,
+		fmt.Sprintf("store to %s.%s must not decrease it", typeName(lv.root), g.Field), pos)
+	vc.assertAt(n, sOr(freshObj, app(">=", val, vc.load(n.env, lv))), ob)
+}
+
+// storesToMonotone: functions that syntactically store to a monotone field tagged with prop.
+func (p *Prog) storesToMonotone(prop string) []*ssa.Function {
+	var out []*ssa.Function
+	for _, fn := range p.allFuncs {
+		found := false
+		for _, b := range fn.Blocks {
+			for _, in := range b.Instrs {
+				st, ok := in.(*ssa.Store)
+				if !ok {
+					continue
+				}
+				fa, ok := st.Addr.(*ssa.FieldAddr)
+				if !ok {
+					continue
+				}
+				root, path, ok := staticPath(fa)
+				if !ok || len(path) != 1 {
+					continue
+				}
+				if g, ok := p.monotone[typeName(root)+"."+path[0]]; ok && hasTag(g.Tags, prop) {
+					found = true
+				}
+			}
+		}
+		if found {
+			out = append(out, fn)
+		}
+	}
+	return out
+}
